@@ -27,9 +27,9 @@ def setitem(base: ast.AST, idx: ast.AST, val: ast.AST) -> ast.AST:
     return ast.Call(func=ast.Name(id="_setitem", ctx=ast.Load()), args=[base, idx, val], keywords=[])
 
 
-def run(func: ast.FunctionDef, atom, rule: str, limit: int = 400):
-    """-> returned expression (AST) of `func` in the case described by `atom`."""
-    env: dict = {}
+def run(func: ast.FunctionDef, atom, rule: str, limit: int = 400, env0: dict | None = None):
+    """-> returned expression (AST) of `func` in the case described by `atom`.  `env0` binds names (parameters) beforehand."""
+    env: dict = dict(env0 or {})
     steps = [0]
 
     def const_atom(n):
@@ -136,6 +136,13 @@ def run(func: ast.FunctionDef, atom, rule: str, limit: int = 400):
                     env[s.target.id] = ast.List(elts=[*cur.elts, *inc.elts], ctx=ast.Load())
                 else:
                     env[s.target.id] = ast.BinOp(left=cur, op=s.op, right=val(s.value))
+            elif isinstance(s, ast.AugAssign) and isinstance(s.target, ast.Subscript) and isinstance(s.target.value, ast.Name):
+                # X[i] op= v  ==  X[i] = X[i] op v
+                nm = s.target.value.id
+                base = env.get(nm, ast.Name(id=nm, ctx=ast.Load()))
+                idx = val(s.target.slice)
+                cur = ast.Subscript(value=clone(base), slice=idx, ctx=ast.Load())
+                env[nm] = setitem(base, idx, ast.BinOp(left=cur, op=s.op, right=val(s.value)))
             elif isinstance(s, ast.Expr) and isinstance(s.value, ast.Call) and isinstance(s.value.func, ast.Attribute) \
                     and s.value.func.attr == "append" and isinstance(s.value.func.value, ast.Name) \
                     and isinstance(env.get(s.value.func.value.id), ast.List) and len(s.value.args) == 1:
